@@ -1088,3 +1088,126 @@ func init() {
 		}
 	})
 }
+
+// ---------------------------------------------------------------- public functions do not write into their arguments
+
+// apiArgsNotMutated: an exported function (or exported method of an exported type) of the library that writes into a map
+// or slice it received as an argument modifies an object its caller may share with the rest of the process — the
+// exported built-in function tables are handed to customfuncs.Merge by every extension that follows the documented
+// pattern (seed C15-9: Merge re-used its first argument as the result map, so a second extension's overrides landed in
+// the built-in table). Unexported helpers that fill a map their caller has just made are not public surface and are
+// only counted.
+func apiArgsNotMutated(c *core.Ctx, rule string) {
+	c.SSA()
+	var alias func(v ssa.Value, seen map[ssa.Value]bool) *ssa.Parameter
+	alias = func(v ssa.Value, seen map[ssa.Value]bool) *ssa.Parameter {
+		if v == nil || seen[v] {
+			return nil
+		}
+		seen[v] = true
+		switch x := v.(type) {
+		case *ssa.Parameter:
+			return x
+		case *ssa.Phi:
+			for _, e := range x.Edges {
+				if p := alias(e, seen); p != nil {
+					return p
+				}
+			}
+		case *ssa.ChangeType:
+			return alias(x.X, seen)
+		case *ssa.Slice:
+			return alias(x.X, seen)
+		case *ssa.UnOp:
+			if x.Op == token.MUL {
+				if a, ok := x.X.(*ssa.Alloc); ok {
+					for _, r := range core.Referrers(a) {
+						if st, ok := r.(*ssa.Store); ok && st.Addr == a {
+							if p := alias(st.Val, seen); p != nil {
+								return p
+							}
+						}
+					}
+				}
+				if ia, ok := x.X.(*ssa.IndexAddr); ok {
+					return alias(ia.X, seen) // an element of a parameter slice (e.g. of the variadic arguments)
+				}
+			}
+		case *ssa.Index:
+			return alias(x.X, seen)
+		case *ssa.Lookup:
+			return nil
+		}
+		return nil
+	}
+	isPublic := func(f *ssa.Function) bool {
+		o, ok := f.Object().(*types.Func)
+		if !ok || !o.Exported() {
+			return false
+		}
+		if recv := f.Signature.Recv(); recv != nil {
+			n := core.NamedOf(recv.Type())
+			return n != nil && n.Obj().Exported()
+		}
+		return true
+	}
+	nPub, nPriv := 0, 0
+	for _, f := range c.RepoFunctions() {
+		if core.IsCLIOrSample(core.FuncPkg(f)) {
+			continue
+		}
+		for _, b := range f.Blocks {
+			for _, in := range b.Instrs {
+				var target ssa.Value
+				switch x := in.(type) {
+				case *ssa.MapUpdate:
+					target = x.Map
+				case *ssa.Store:
+					if ia, ok := x.Addr.(*ssa.IndexAddr); ok {
+						if _, isSl := ia.X.Type().Underlying().(*types.Slice); isSl {
+							target = ia.X
+						}
+					}
+				case *ssa.Call:
+					if bi, ok := x.Call.Value.(*ssa.Builtin); ok && (bi.Name() == "delete" || bi.Name() == "clear") && len(x.Call.Args) > 0 {
+						target = x.Call.Args[0]
+					}
+				}
+				if target == nil {
+					continue
+				}
+				p := alias(target, map[ssa.Value]bool{})
+				if p == nil || p.Parent() != f {
+					continue
+				}
+				if f.Signature.Recv() != nil && len(f.Params) > 0 && p == f.Params[0] {
+					continue // the receiver itself
+				}
+				if !isPublic(f) {
+					nPriv++
+					continue
+				}
+				nPub++
+				c.Bad(rule, core.FuncKey(f)+" writes into its argument "+p.Name(), core.InstrPos(in), "the exported function modifies the "+p.Type().String()+" it was handed as argument "+p.Name()+" (possibly through the value it also returns): a caller that passes a table shared by the whole process — the exported built-in function maps — has it changed for every schema and transform")
+			}
+		}
+	}
+	c.OK(rule, "public functions leave their aggregate arguments alone", 0, fmt.Sprintf("%d write(s) into a map/slice argument in exported functions, %d in unexported helpers (not public surface)", nPub, nPriv))
+}
+
+func init() {
+	wrapRun("C15", func(c *core.Ctx) {
+		if c.CountRule("R15k") == 0 {
+			apiArgsNotMutated(c, "R15k")
+		}
+		if c.CountRule("R15l") == 0 {
+			importRules(c, "C09", map[string]string{"R09a": "R15l", "R09i": "R15l"})
+			c.Floor("R15l", 15, "borrowed-buffer discipline (= C09 R09a/R09i)")
+		}
+	})
+	wrapRun("C14", func(c *core.Ctx) {
+		if c.CountRule("R14g") == 0 {
+			apiArgsNotMutated(c, "R14g")
+		}
+	})
+}
